@@ -52,13 +52,15 @@ type Mut struct {
 
 // Action is one thing the scripted server does in reaction to a request.
 type Action struct {
-	Kind    string `json:"kind"` // resp req frame raw close rst sleep half udp
+	Kind    string `json:"kind"` // resp req frame raw close rst sleep half udp drip
 	Muts    []Mut  `json:"muts,omitempty"`
 	Method  string `json:"method,omitempty"`  // req
 	Ch      int    `json:"ch,omitempty"`      // frame: channel; udp: 0 = RTP port, 1 = RTCP port of the first set-up media
 	Payload []byte `json:"payload,omitempty"` // frame payload / raw bytes
 	Ms      int    `json:"ms,omitempty"`      // sleep
 	NoParse bool   `json:"noparse,omitempty"` // what is written cannot be parsed by the client (its reader dies)
+	Every   int    `json:"every,omitempty"`   // drip: one message every so many ms …
+	For     int    `json:"for,omitempty"`     // … for so many ms; Method = stale | options | frame (what is dripped)
 }
 
 // Reaction is what the server does when it has read its N-th request with method M (1-based,
